@@ -256,3 +256,117 @@ pub fn make_prim<'a>(kind: &str, raw: i64, text: &'a str) -> Prim<'a> {
         _ => Prim::Map,
     }
 }
+
+
+// ---------------------------------------------------------------------------
+// Values produced by the crate's own arithmetic / conversions (not by the
+// checked constructors) and serialized as they come.
+// ---------------------------------------------------------------------------
+
+pub const DERIVED_KINDS: [&str; 14] = [
+    "Time::from(IntervalDT)",
+    "Time::add_interval_dt",
+    "Time::sub_interval_dt",
+    "Timestamp::round_day",
+    "Timestamp::trunc_day",
+    "Timestamp::last_day_of_month",
+    "Timestamp::add_interval_dt",
+    "Date::last_day_of_month",
+    "Date::add_days",
+    "IntervalDT::from(Time)",
+    "Time::sub_time",
+    "Timestamp::sub_timestamp",
+    "OracleDate::from(Timestamp)",
+    "IntervalYM::neg",
+];
+
+/// Computes the derived value from valid operands `a`, `b` (raw counts of the
+/// operand types of `kind`), serializes the RESULT OBJECT itself, and returns
+/// (outcome, type of the result, raw count of the result).
+pub fn encode_derived<W: Write>(kind: &str, a: i64, b: i64, codec: Codec, w: W) -> (Encoded, Ty, i64) {
+    use sqldatetime::Round;
+    use sqldatetime::Trunc;
+    let r = std::panic::catch_unwind(std::panic::AssertUnwindSafe(|| -> Result<(Result<(), String>, Ty, i64), ()> {
+        let e = |_| ();
+        Ok(match kind {
+            "Time::from(IntervalDT)" => {
+                let v = Time::from(IntervalDT::try_from_usecs(a).map_err(e)?);
+                (ser(&v, codec, w), Ty::Time, v.usecs())
+            }
+            "Time::add_interval_dt" => {
+                let v = Time::try_from_usecs(a).map_err(e)?.add_interval_dt(IntervalDT::try_from_usecs(b).map_err(e)?);
+                (ser(&v, codec, w), Ty::Time, v.usecs())
+            }
+            "Time::sub_interval_dt" => {
+                let v = Time::try_from_usecs(a).map_err(e)?.sub_interval_dt(IntervalDT::try_from_usecs(b).map_err(e)?);
+                (ser(&v, codec, w), Ty::Time, v.usecs())
+            }
+            "Timestamp::round_day" => {
+                let v = Timestamp::try_from_usecs(a).map_err(e)?.round_day().map_err(e)?;
+                (ser(&v, codec, w), Ty::Timestamp, v.usecs())
+            }
+            "Timestamp::trunc_day" => {
+                let v = Timestamp::try_from_usecs(a).map_err(e)?.trunc_day().map_err(e)?;
+                (ser(&v, codec, w), Ty::Timestamp, v.usecs())
+            }
+            "Timestamp::last_day_of_month" => {
+                let v = Timestamp::try_from_usecs(a).map_err(e)?.last_day_of_month();
+                (ser(&v, codec, w), Ty::Timestamp, v.usecs())
+            }
+            "Timestamp::add_interval_dt" => {
+                let v = Timestamp::try_from_usecs(a).map_err(e)?.add_interval_dt(IntervalDT::try_from_usecs(b).map_err(e)?).map_err(e)?;
+                (ser(&v, codec, w), Ty::Timestamp, v.usecs())
+            }
+            "Date::last_day_of_month" => {
+                let v = Date::try_from_days(i32::try_from(a).map_err(|_| ())?).map_err(e)?.last_day_of_month();
+                (ser(&v, codec, w), Ty::Date, v.days() as i64)
+            }
+            "Date::add_days" => {
+                let v = Date::try_from_days(i32::try_from(a).map_err(|_| ())?).map_err(e)?.add_days(b as i32).map_err(e)?;
+                (ser(&v, codec, w), Ty::Date, v.days() as i64)
+            }
+            "IntervalDT::from(Time)" => {
+                let v = IntervalDT::from(Time::try_from_usecs(a).map_err(e)?);
+                (ser(&v, codec, w), Ty::IntervalDT, v.usecs())
+            }
+            "Time::sub_time" => {
+                let v = Time::try_from_usecs(a).map_err(e)?.sub_time(Time::try_from_usecs(b).map_err(e)?);
+                (ser(&v, codec, w), Ty::IntervalDT, v.usecs())
+            }
+            "Timestamp::sub_timestamp" => {
+                let v = Timestamp::try_from_usecs(a).map_err(e)?.sub_timestamp(Timestamp::try_from_usecs(b).map_err(e)?);
+                (ser(&v, codec, w), Ty::IntervalDT, v.usecs())
+            }
+            "OracleDate::from(Timestamp)" => {
+                let v = OracleDate::from(Timestamp::try_from_usecs(a).map_err(e)?);
+                (ser(&v, codec, w), Ty::Oracle, v.usecs())
+            }
+            _ => {
+                let v = -IntervalYM::try_from_months(i32::try_from(a).map_err(|_| ())?).map_err(e)?;
+                (ser(&v, codec, w), Ty::IntervalYM, v.months() as i64)
+            }
+        })
+    }));
+    match r {
+        Ok(Ok((Ok(()), ty, raw))) => (Encoded::Ok, ty, raw),
+        Ok(Ok((Err(e), ty, raw))) => (Encoded::Err(e), ty, raw),
+        Ok(Err(())) => (Encoded::NotAValue, Ty::Date, 0),
+        Err(_) => (Encoded::Panic(last_panic()), Ty::Date, 0),
+    }
+}
+
+/// Operand types of a derived kind.
+pub fn derived_operands(kind: &str) -> (Ty, Ty) {
+    match kind {
+        "Time::from(IntervalDT)" => (Ty::IntervalDT, Ty::IntervalDT),
+        "Time::add_interval_dt" | "Time::sub_interval_dt" => (Ty::Time, Ty::IntervalDT),
+        "Timestamp::round_day" | "Timestamp::trunc_day" | "Timestamp::last_day_of_month" | "OracleDate::from(Timestamp)" => (Ty::Timestamp, Ty::Timestamp),
+        "Timestamp::add_interval_dt" => (Ty::Timestamp, Ty::IntervalDT),
+        "Date::last_day_of_month" => (Ty::Date, Ty::Date),
+        "Date::add_days" => (Ty::Date, Ty::Date),
+        "IntervalDT::from(Time)" => (Ty::Time, Ty::Time),
+        "Time::sub_time" => (Ty::Time, Ty::Time),
+        "Timestamp::sub_timestamp" => (Ty::Timestamp, Ty::Timestamp),
+        _ => (Ty::IntervalYM, Ty::IntervalYM),
+    }
+}
